@@ -44,7 +44,7 @@ function numTok(n) {
   return String(n);
 }
 export function encode(v, depth = 0) {
-  if (depth > 12) return { k: "other", d: "deep" };
+  if (depth > 64) return { k: "other", d: "deep" };
   if (v === null) return { k: "null" };
   if (v === undefined) return { k: "undef" };
   switch (typeof v) {
